@@ -493,6 +493,9 @@ class Interp:
             return TupleV((IdxV(lid, lay if lay is not None else Unknown("enum"), start), e))
         if isinstance(it, tuple) and it and it[0] == "RANGE":
             return IdxV(lid, Dim(it[1]))
+        if isinstance(it, tuple) and it and it[0] == "PRODUCT":
+            # for row, col in product(range(R), range(C)): the nested row-major loops
+            return TupleV((IdxV(lid, Dim(it[1])), IdxV(next(self.loop_ids), Dim(it[2]))))
         if isinstance(it, tuple) and it and it[0] == "ZIPFLAT":
             row, col = IdxV(lid, Dim(it[1])), IdxV(next(self.loop_ids), Dim(it[2]))
             return TupleV((TupleV((row, col)), ("FLATREAD", it[3], LinIdx(row, it[2], col))))
@@ -605,6 +608,10 @@ class Interp:
             return Const(("math", n.id))
         if n.id == "namedtuple":
             return Const(("collections", "namedtuple"))
+        if n.id in ("attrgetter", "itemgetter"):
+            return Const(("operator", n.id))
+        if n.id == "operator":
+            return ModuleV("operator")
         if n.id in ("np", "numpy"):
             return ModuleV("np")
         if n.id == "Matrix":
@@ -651,6 +658,8 @@ class Interp:
         if isinstance(base, ModuleV):
             if base.name == "np":
                 return Const(("np", attr))
+            if base.name == "operator":
+                return Const(("operator", attr))
             if base.name in self.p.funcs and attr in self.p.funcs[base.name]:
                 return FuncV(self.p.funcs[base.name][attr], base.name)
             if base.name in self.p.classes and attr in self.p.classes[base.name]:
@@ -691,7 +700,11 @@ class Interp:
         return ("BOUND", base, attr)
 
     def ev_Tuple(self, n, env):
-        return TupleV(tuple(self.ev(e, env) for e in n.elts))
+        items = tuple(self.ev(e, env) for e in n.elts)
+        if any(isinstance(i, tuple) and i and i[0] == "STAR" for i in items):
+            # (a, *xs, *ys): an argument pack, spliced where it is starred into a call
+            return ("ARGPACK", items)
+        return TupleV(items)
 
     def ev_List(self, n, env):
         items = [self.ev(e, env) for e in n.elts]
@@ -1022,6 +1035,10 @@ class Interp:
                     fields = tuple(a.value for a in args[1][1] if isinstance(a, Const))
                 nm = args[0].value if args and isinstance(args[0], Const) else ""
                 return NTClsV(nm, fields)
+            if f.value[0] == "operator":
+                if f.value[1] == "attrgetter" and len(args) == 1 and isinstance(args[0], Const) and isinstance(args[0].value, str):
+                    return ("ATTRGETTER", args[0].value)
+                return Unknown("operator." + f.value[1])
             if f.value[0] == "math":
                 a0 = to_scalar(args[0]) if args else None
                 if f.value[1] == "sqrt" and a0 is not None:
@@ -1213,6 +1230,15 @@ class Interp:
             return "lambda:" + ast.unparse(b)
         if isinstance(key, Const) and key.value is str:
             return "name"
+        if isinstance(key, tuple) and key and key[0] == "ATTRGETTER":
+            return "name" if key[1] == "name" else "attr:" + key[1]
+        if isinstance(key, FuncV):
+            # def key(x): return x.name
+            body = [s_ for s_ in key.node.body if not (isinstance(s_, ast.Expr) and isinstance(s_.value, ast.Constant))]
+            ps = [a.arg for a in key.node.args.args]
+            if len(body) == 1 and isinstance(body[0], ast.Return) and len(ps) == 1 and isinstance(body[0].value, ast.Attribute) \
+                    and isinstance(body[0].value.value, ast.Name) and body[0].value.value.id == ps[0]:
+                return "name" if body[0].value.attr == "name" else "attr:" + body[0].value.attr
         return "other"
 
     def do_zip(self, args, env, n):
@@ -1347,6 +1373,15 @@ class Interp:
     def check_execute(self, blk: BlockV, args, env, n):
         lay = Layout(())
         known = True
+        flat_args = []
+        for a in args:
+            if isinstance(a, tuple) and a and a[0] == "STAR" and isinstance(a[1], tuple) and a[1] and a[1][0] == "ARGPACK":
+                flat_args.extend(a[1][1])
+            elif isinstance(a, tuple) and a and a[0] == "STAR" and isinstance(a[1], TupleV) and all(isinstance(x, SymV) and x.role == "DT" for x in a[1].items):
+                flat_args.extend(a[1].items)
+            else:
+                flat_args.append(a)
+        args = flat_args
         for a in args:
             if isinstance(a, tuple) and a and a[0] == "STAR":
                 v = a[1]
@@ -1439,7 +1474,8 @@ class Interp:
             self.sitepaths.pop()
         qn = f"{f.cls}.{fn.name}" if f.cls else fn.name
         call_id = len(self.calls)
-        self.calls.append({"callee": qn, "args": dict(bound), "where": self.where(env, n) if env is not None and n is not None else "", "id": call_id})
+        self.calls.append({"callee": qn, "args": dict(bound), "where": self.where(env, n) if env is not None and n is not None else "", "id": call_id,
+                           "stack": list(self.stack)})
         if e2.yields:
             return ("GENFN", tuple(e2.yields))
         if not e2.returns:
@@ -1451,6 +1487,10 @@ class Interp:
         self.calls[call_id]["returns"] = list(zip(e2.returns, e2.return_paths))
         if qn in self.opaque:
             nm = self.opaque[qn]
+            # the evaluation point is part of the atom: a model / Jacobian evaluated at anything but the caller's own inputs is another quantity
+            off = [f"{p_}={v_.origin or '<computed>'}" for p_, v_ in bound.items() if isinstance(v_, NInst) and v_.origin not in ("x", "u", "z", "P")]
+            if off:
+                nm = nm + "@" + ",".join(off)
             if isinstance(acc, ArrV):
                 acc = ArrV(acc.rows, acc.cols, origin=f"call:{qn}#{call_id}", form=MatForm.atom(nm))
             elif isinstance(acc, NInst):
